@@ -222,3 +222,9 @@ fn c08_alias_empty() {
     kani::cover!(true, "reached");
 }
 
+
+// Float weights (f32/f64) are NOT covered: WeightedAliasIndex::new ends in rand's Uniform::<F>::new, whose
+// `new_bounded` loop (decrease scale until scale*max_rand + low <= high) has no bound the solver can prove
+// (it needs scale*(1-eps) <= scale for a symbolic scale); harnesses over symbolic float weights ended in an
+// unwinding failure / timeout.  The seeded float-only changes (leftover sentinel alias, lossy clone) are
+// therefore not detected; see DESIGN.md section 0.7.
